@@ -9,7 +9,7 @@ import (
 // Skeleton programs for dependency / fork shapes that the purely random
 // generator reaches rarely.  Types and literal values are still random.
 
-const NTemplates = 14
+const NTemplates = 15
 
 // NFileTemplates file-passing skeletons follow the NTemplates dataflow ones.
 const NFileTemplates = 10
@@ -360,6 +360,28 @@ func Template(kind int, seed int64, cfg *Config) *Program {
 			},
 			Ret: []Binding{{Id: "sd", Exp: ref("SD", "xo")}, {Id: "ds", Exp: ref("DS", "xo")}}}
 		p.Pipelines = []*Pipeline{inner, top}
+	case 14:
+		// map calls nested three deep, every level sized at run time by one
+		// jagged collection from a stage (v[a][b] has its own length)
+		one := src(&Stage{Name: "ONE", Ins: []Param{{Name: "x", Type: TInt}, {Name: "y", Type: TInt}}, Outs: []Param{{Name: "xo", Type: TInt}}})
+		a3 := ArrayOf(ArrayOf(ArrayOf(TInt)))
+		cube := src(&Stage{Name: "CUBE", Ins: []Param{{Name: "v", Type: a3}}, Outs: []Param{{Name: "n", Type: TInt}}})
+		gen3 := src(&Stage{Name: "GEN3", Ins: []Param{{Name: "seed", Type: TInt}}, Outs: []Param{{Name: "v", Type: a3}}})
+		p.Stages = []*Stage{gen3, one, cube}
+		l3 := &Pipeline{Name: "L3", Ins: []Param{{Name: "xs", Type: ArrayOf(TInt)}}, Outs: []Param{{Name: "xo", Type: ArrayOf(TInt)}},
+			Calls: []*Call{{Callee: "ONE", Map: true, Binds: []Binding{{Id: "x", Exp: self("xs"), Split: true}, {Id: "y", Exp: lit(s2)}}}},
+			Ret:   []Binding{{Id: "xo", Exp: ref("ONE", "xo")}}}
+		l2 := &Pipeline{Name: "L2", Ins: []Param{{Name: "xss", Type: ArrayOf(ArrayOf(TInt))}}, Outs: []Param{{Name: "xo", Type: ArrayOf(ArrayOf(TInt))}},
+			Calls: []*Call{{Callee: "L3", Map: true, Binds: []Binding{{Id: "xs", Exp: self("xss"), Split: true}}}},
+			Ret:   []Binding{{Id: "xo", Exp: ref("L3", "xo")}}}
+		top := &Pipeline{Name: "TOP", Outs: []Param{{Name: "ddd", Type: a3}},
+			Calls: []*Call{
+				{Callee: "GEN3", Binds: []Binding{{Id: "seed", Exp: lit(s1)}}},
+				{Callee: "L2", Map: true, Binds: []Binding{{Id: "xss", Exp: ref("GEN3", "v"), Split: true}}},
+				{Callee: "CUBE", Alias: "SEE", Binds: []Binding{{Id: "v", Exp: ref("L2", "xo")}}},
+			},
+			Ret: []Binding{{Id: "ddd", Exp: ref("L2", "xo")}}}
+		p.Pipelines = []*Pipeline{l3, l2, top}
 	case 13:
 		// nested run-time disable controls: a value produced by a call disabled
 		// by one flag passes through a pipeline disabled by another flag (the
